@@ -188,8 +188,14 @@ def check_story(story, model, walk_case, label, source=None, corrupted=None):
             prev = st["state"]
     # ------------------------------------------------ C12
     try:
-        if json.loads(json.dumps(story)) != story:
-            add(f12, "the compiled story does not survive a JSON round trip unchanged")
+        try:
+            if json.loads(json.dumps(story, allow_nan=False)) != story:
+                add(f12, "the compiled story does not survive a JSON round trip unchanged")
+        except ValueError as e:
+            add(f12, f"the compiled story is not JSON data: {e}")
+        for k, v in (story.get("metadata") or {}).items():
+            if not isinstance(v, str):
+                add(f12, f"metadata value {k!r} was compiled to a {type(v).__name__} ({v!r}); metadata values are text")
     except Exception as e:  # noqa
         add(f12, f"the compiled story is not JSON data: {e}")
     if story.get("initial_passage") not in story["passages"]:
@@ -258,6 +264,11 @@ def _chunk(arg):
         if r.random() < 0.45:
             corrupted = corrupt(r, a)
         src = gen_story.print_story(a)
+        if r.random() < 0.5:
+            # a metadata block: values are text, whatever they look like
+            md = r.sample([("title", r.choice(["The Keep", "Infinity", "Nan", "1e999", "true", "None"])), ("author", r.choice(["Ann", "nan", "-inf", "007", "\"quoted\""])),
+                           ("version", r.choice(["1.0.0", "2", "0.5", "inf"])), ("story_id", r.choice(["keep", "NaN", "12"]))], r.randint(1, 4))
+            src = "@metadata\n" + "".join(f"  {k}: {v}\n" for k, v in md) + "\n" + src
         items.append((idx, src, corrupted, r))
     todo = []
     for idx, src, corrupted, r in items:
